@@ -39,6 +39,7 @@ CORR_N = {
     'unicode.py': {'quick': 4000, 'thorough': 30000},
     'standards.py': {'quick': 6000, 'thorough': 40000},
     'gs1.py': {'quick': 400, 'thorough': 3000},
+    'warm.py': {'quick': 3000, 'thorough': 30000},
 }
 
 PROPS = {
@@ -54,7 +55,7 @@ PROPS = {
         'stdnum.iso11649', 'stdnum.isni', 'stdnum.lei', 'stdnum.grid', 'stdnum.cusip', 'stdnum.gb.sedol', 'stdnum.figi',
         'stdnum.imo', 'stdnum.casrn', 'stdnum.bic', 'stdnum.isrc', 'stdnum.bitcoin'})},
     'C08': {'search': 'c08', 'scope': scope_funcs(prefixes=['to_', 'from_', 'convert'])},
-    'C09': {'search': 'c09', 'scope': scope_funcs(names={'validate', 'guess_type', 'guess_country'}, modules={
+    'C09': {'search': 'c09', 'corr': ['warm.py'], 'scope': scope_funcs(names={'validate', 'guess_type', 'guess_country'}, modules={
         'stdnum.eu.vat', 'stdnum.vatin', 'stdnum.us.tin', 'stdnum.be.ssn', 'stdnum.th.tin', 'stdnum.es.nif', 'stdnum.iban'})},
     'C10': {'search': 'c10', 'corr': ['numdb.py']},
     'C11': {'search': 'c11', 'corr': ['numdb.py'], 'scope': scope_funcs(modules={
@@ -62,7 +63,7 @@ PROPS = {
         'stdnum.isil', 'stdnum.isbn', 'stdnum.iban', 'stdnum.cfi', 'stdnum.cn.ric', 'stdnum.imsi', 'stdnum.eu.nace', 'stdnum.id.npwp',
         'stdnum.nz.bankaccount'})},
     'C12': {'search': 'c12', 'scope': scope_funcs(names={'info', 'split'}, prefixes=['get_'])},
-    'C13': {'search': 'c13'},
+    'C13': {'search': 'c13', 'corr': ['warm.py']},
     'C14': {'search': 'c14', 'scope': scope_funcs(modules={'stdnum.util'})},
     'C15': {'search': 'c15', 'scope': scope_funcs(names={'validate'})},
     'C16': {'search': 'c16', 'corr': ['gs1.py'], 'scope': scope_funcs(modules={'stdnum.gs1_128'})},
